@@ -206,7 +206,7 @@ func matchesWindow(b, w []byte) bool {
 
 // c18Check applies the refinement oracle to the IDs built in one phase.
 func c18Check(r *core.Run, ids []builtID, ent *TaskEntropy, nStreams int, ctx map[string]any) {
-	nStreams = len(ent.streams) // including the stream served to goroutines the library started itself
+	nStreams = len(ent.streams)              // including the stream served to goroutines the library started itself
 	used := make([]map[int]string, nStreams) // stream -> window offset -> id
 	for i := range used {
 		used[i] = map[int]string{}
